@@ -857,6 +857,7 @@ def run(ctx):
   ctx.exhaustive = False
   ctx.extra['crossover_sweep'] = dict(exhaustive=True, max_values=ctx.scale(4, 5), evaluations=crossover_sweep(ctx, ctx.scale(4, 5)),
                                       what='every pair of parent permutations x every pair of cutting points (PMX, Order) / every coin-flip sequence (Cycle): proposals are permutations')
+  ctx.extra['evolution_loop_cases'] = evolution_loop_sweep(ctx, rng, ctx.scale(60, 600))
   ctx.extra['nsga2_operator_cases'] = nsga2_sweep(ctx, rng, ctx.scale(150, 2000))
   ctx.extra['systematic_sweep'] = dict(mode_specs=len(mode_specs()), selectors=len(sels), mutators=len(muts), pointwise=len(recs), two_parent=len(recs2))
   # violation search on the disagreeing cases first (the oracle has already run on every case)
@@ -969,6 +970,57 @@ def nsga2_sweep(ctx, rng, n):
       ctx.hit(sig, what, dict(kind='nsga2', fitness=fitness, alias=alias))
   return n
 
+LOOP_STOP = ['There is no child reproduced', 'supports recombination on exact', 'Immutable DNA', 'Total of weights must be', 'The input is expected to be a list',
+             'list index out of range', 'Cannot choose from an empty sequence', 'Sample larger than population']
+def evolution_loop_check(spec_t, expr, seed, rewards, init=4, keep=6):
+  """The expression as the reproduction operation of base.Evolution (population_update = Last(keep)): proposing must not
+  change the population (its list, its members, their metadata), and every proposal is a valid DNA that is not a population member."""
+  import itertools
+  pg, base, M, R, S, W = lib()
+  spec, _ = pg_spec(spec_t)
+  hits = []
+  try:
+    op = Builder(seeds=itertools.count(seed)).build(expr)
+    algo = base.Evolution(op, population_init=(pg.geno.Random(seed=seed), init), population_update=S.Last(keep))
+    algo.setup(spec)
+  except Exception as e:   # pylint: disable=broad-except
+    return [('C14/raises/Evolution.setup/%s' % msg_key(e), 'setting up Evolution with the expression raises %s: %s' % (type(e).__name__, str(e)[:160]))]
+  for t, rw in enumerate(rewards):
+    snap = [(id(d), pg.to_json_str(d)) for d in algo.population]
+    try:
+      d = algo.propose()
+    except Exception as e:   # pylint: disable=broad-except
+      if isinstance(e, (KeyError, ZeroDivisionError)) or any(m in str(e) for m in LOOP_STOP): break      # the expression refuses this population
+      hits.append(('C14/raises/Evolution.propose/%s' % msg_key(e), 'propose() raises %s at step %d: %s' % (type(e).__name__, t, str(e)[:160]))); break
+    now = [(id(x), pg.to_json_str(x)) for x in algo.population]
+    if [i for i, _ in now] != [i for i, _ in snap]:
+      hits.append(('C14/input-modified/Evolution._evolve/population-list-rewritten',
+                   'propose() at step %d replaced members of the population (the reproduction returned its input list and _evolve overwrote its items with clones)' % t)); break
+    if now != snap:
+      hits.append(('C14/input-modified/Evolution._evolve/member-metadata', 'propose() at step %d changed the JSON form (metadata) of a population member' % t)); break
+    if any(d is m for m in algo.population):
+      hits.append(('C14/input-modified/Evolution._evolve/proposal-is-a-member', 'the proposal of step %d is a population member itself (not a clone)' % t)); break
+    try:
+      spec.validate(d)
+    except Exception as e:   # pylint: disable=broad-except
+      hits.append(('C14/child-invalid/Evolution.propose/%s' % msg_key(e), 'the proposal of step %d is not valid: %s' % (t, str(e)[:160]))); break
+    algo.feedback(d, rw)
+  return hits
+
+def evolution_loop_sweep(ctx, rng, n):
+  specs = [s for s in mode_specs() if not any(p[0] == 'X' for p in s[1])][:40]
+  fixed = [[1], [13, [2, 2], P([1, [0, NW_ALL]])], [15, 3, [P([1, [0, NW_ALL]])], []], [9, 0, P([1, [0, NW_ALL]])],
+           [2, P([0, [0, [0, 2], 0]]), [13, [1, 2], P([2, [1, 1]])]], [2, [2, P([0, [0, [0, 3], 0]]), P([0, [3, [0, 1], 0]])], P([1, [0, NW_ALL]])]]
+  done = 0
+  for i in range(n):
+    s = rng.choice(specs)
+    expr = fixed[i] if i < len(fixed) else gen_expr(rng, rng.choice([1, 2, 2, 3]))
+    seed = rng.randint(0, 999); rewards = [rng.randint(0, 8) / 4.0 for _ in range(rng.choice([8, 12, 16]))]
+    for sig, what in evolution_loop_check(s, expr, seed, rewards):
+      ctx.hit(sig, what, dict(kind='evolution-loop', spec=s, expr=expr, seed=seed, rewards=rewards))
+    done += 1
+  return done
+
 def process_case(c):
   """One case in a worker process: run the implementation with the recorder, evaluate the oracle.  Never raises:
   whatever the library does on an input inside the property's quantifier is an outcome / an oracle hit with the case as replay."""
@@ -999,6 +1051,10 @@ def run_jobs(fn, jobs, nproc):
 
 def replay(ctx, rp):
   c = rp['case']
+  if c.get('kind') == 'evolution-loop':
+    hits = evolution_loop_check(c['spec'], c['expr'], c['seed'], c['rewards'])
+    for h in hits: print('  still fails:', h)
+    return not hits
   if c.get('kind') == 'nsga2':
     hits = nsga2_check(c['fitness'], c['alias'])
     for h in hits: print('  still fails:', h)
